@@ -47,7 +47,7 @@ Docs == << <<>>, <<"the value">>, <<"first line", "second: line (2)">>, <<"">> >
 FNames == <<"id", "user_name", "x2", "is_ok", "a", "count_3d">>
 Field(i, j, pool) == [name |-> FNames[j], docs |-> Pick(Docs, i + j), ty |-> Pick(pool, i * 7 + j * 13)]
 Var(n, d) == [name |-> n, docs |-> d]
-ErrOrders == << <<1, 2, 3, 4>>, <<2, 1, 4, 3>>, <<3, 4, 1, 2>>, <<4, 3, 2, 1>>, <<2, 3>>, <<3, 1>>, <<1>>, <<>> >>
+ErrOrders == << <<1, 2, 3, 4>>, <<2, 1, 4, 3, 5>>, <<3, 4, 1, 2>>, <<5, 4, 3, 2, 1>>, <<2, 3>>, <<3, 1>>, <<1>>, <<>>, <<5, 2>> >>
 Group(i) ==
     LET k == i % 7
         rec == [name |-> "Rec", docs |-> Pick(Docs, i), isenum |-> FALSE,
@@ -64,7 +64,11 @@ Group(i) ==
                   [name |-> "Invalid", docs |-> Pick(Docs, i + 3), kind |-> "struct",
                    fields |-> [j \in 1..((i % 4) + 1) |-> Field(i + 5, j, Pool)], inline |-> ""],
                   [name |-> "Detailed", docs |-> Pick(Docs, i), kind |-> "tuple", fields |-> <<>>, inline |-> "Inner"],
-                  [name |-> "Busy", docs |-> <<>>, kind |-> "unit", fields |-> <<>>, inline |-> ""] >>
+                  [name |-> "Busy", docs |-> <<>>, kind |-> "unit", fields |-> <<>>, inline |-> ""],
+                  \* a second struct-like variant whose name differs from `Invalid' only in case and whose fields have
+                  \* the same names but other types (their descriptions must not be mixed up)
+                  [name |-> "InValid", docs |-> Pick(Docs, i + 1), kind |-> "struct",
+                   fields |-> [j \in 1..((i % 3) + 1) |-> Field(i + 6, j, Pool)], inline |-> ""] >>
         ord == Pick(ErrOrders, i)
     IN [id |-> i, customs |-> IF i % 5 = 4 THEN <<mode, rec>> ELSE <<rec, mode>>, inlines |-> <<inner, kind>>,
         errs |-> [x \in 1..Len(ord) |-> evs[ord[x]]],
